@@ -57,6 +57,13 @@ Theorem c10_class_closure_is_canonical_equivalence : forall (unicode : bool) (s 
   exists a, cps_contains s a = true /\ fold_code_point a unicode = fold_code_point c unicode.
 Proof. exact class_closure_is_canonical_equivalence. Qed.
 
+(* the run-time expansion of one code point (literals under i, and the reference side of class matching) is its
+   canonical equivalence class, for every code point: the universal form of c10_unfold_is_fold_class *)
+Theorem c10_unfold_char_is_canonical_class : forall c a, In a (unfold_char c) <-> fold a = fold c.
+Proof. exact unfold_char_spec. Qed.
+Theorem c10_unfold_uppercase_char_is_canonical_class : forall c a, In a (unfold_uppercase_char c) <-> uppercase a = uppercase c.
+Proof. exact unfold_uppercase_char_spec. Qed.
+
 (* Non-vacuity: the class [\u01B9-\u01BC] under iu (an interval that starts inside a stride-2 range of FOLDS) *)
 Example c10_closure_example : add_icase_code_points_for [(441, 444)] true = [(440, 445)].
 Proof. vm_compute. reflexivity. Qed.
